@@ -4,14 +4,15 @@ RULE = ("P1: for all shapes m, l, n in 1..KC (quick 3, thorough 5), four flag pa
         "(inner dimension off by one) TLC checks MatmulCode (explicit transposition; both flags via (B.A)^T) = ProdSpec"
         " and BlockedCode(bs) = ProdSpec for every block size 1..2KC, the transpose identity the both-flags branch "
         "relies on, and homogeneity (sA)(tB) = st AB; P2 (inner products additionally of length 64, 65, 70, 96, 97, "
-        "130): for all shapes 1..K (quick 5, thorough 9) x flags x {conformable, non-conformable} the exact product is "
-        "emitted and replayed through matmul, matmul_blocked for every block size 1..2 max(m,l,n), xtx, and every Dot "
-        "method in all receiver/argument ownership combinations (Matrix.Matrix; Matrix.Vector when n = 1; Vector.Matrix"
-        " when m = 1; Vector.Vector when m = n = 1), equality oracle on integer entries, panic expected for non-"
-        "conformable shapes; A A^T and A^T A with one object passed as both operands equal the products with a copy; a "
-        "third of the cases is replayed again with the operands scaled by powers of two (2^-60 x 2^60, 2^-55 x 2^-55, "
-        "2^300 x 2^200, 2^-500 x 1: still exact); P3: random shapes up to 12 (quick) / 16 (thorough) with entries in "
-        "+-50 recorded and validated by TLC (Trace_Products); shapes 17..64 through the relational observation "
+        "130, also with outer dimensions 2..5 on both sides): for all shapes 1..K (quick 5, thorough 9) x flags x "
+        "{conformable, non-conformable} the exact product is emitted and replayed through matmul, matmul_blocked for "
+        "every block size 1..2 max(m,l,n) and for 2^40, 2^63, usize::MAX - 1, usize::MAX, xtx, and every Dot method in "
+        "all receiver/argument ownership combinations (Matrix.Matrix; Matrix.Vector when n = 1; Vector.Matrix when m = "
+        "1; Vector.Vector when m = n = 1), equality oracle on integer entries, panic expected for non-conformable "
+        "shapes; A A^T and A^T A with one object passed as both operands equal the products with a copy; a third of the"
+        " cases is replayed again with the operands scaled by powers of two (2^-60 x 2^60, 2^-55 x 2^-55, 2^300 x "
+        "2^200, 2^-500 x 1: still exact); P3: random shapes up to 12 (quick) / 16 (thorough) with entries in +-50 "
+        "recorded and validated by TLC (Trace_Products); shapes 17..64 through the relational observation "
         "matmul_blocked = matmul. Case class = (entry point + ownership, flags, shape class, conformable?, block-size "
         "class).")
 ASSUMPTIONS = ["integer-valued entries: products and sums exact in f64 (equality oracle)",
